@@ -99,7 +99,14 @@ def oracle(c, r):
                 es = t["es"]
                 if not es or es[0][0] != got["lo"] or es[-1][1] != got["hi"] or any(not e[0] < e[1] for e in es) or \
                         any(x[1] != y[0] for x, y in zip(es, es[1:])):
-                    return Failure(dict(sig, clause="partition"), f"{fmt}: tier {t['name']!r} is not a partition of [{got['lo']},{got['hi']}]: {es}")
+                    fsig = dict(sig, clause="partition")
+                    bad = [e for e in es if not e[0] < e[1]]
+                    rest = [e for e in es if e[0] < e[1]]
+                    if fmt in ("short_textgrid", "long_textgrid") and bad and all(e[0] == e[1] and float(e[0]).is_integer() and e[2] == "" for e in bad) and \
+                            rest and rest[0][0] == got["lo"] and rest[-1][1] == got["hi"] and all(x[1] == y[0] for x, y in zip(rest, rest[1:])):
+                        # the only flaw: a filler whose two distinct ends were both written as the same integer by numToStr
+                        fsig["cause"] = "integer-snap-collapse"
+                    return Failure(fsig, f"{fmt}: tier {t['name']!r} is not a partition of [{got['lo']},{got['hi']}]: {es}")
     # the four formats agree (json keeps one span for all tiers)
     ref = decoded["textgrid_json"]
     for fmt in ("short_textgrid", "long_textgrid", "json"):
@@ -130,6 +137,14 @@ def corpus():
                                        {"k": "P", "name": "p", "es": [[1.0, 'text = "x"'], [2.0, "ooTextFile short"]], "lo": 0.0, "hi": 5.0}]}
     yield {"op": "write", "tg": g, "blanks": True, "stream": "keyword"}
     yield {"op": "write", "tg": g, "blanks": False, "min": 0.0, "max": 9.5, "stream": "keyword"}
+    # known finding N1: two distinct boundaries written as the same integer (numToStr's relative tolerance at 5e14 s)
+    big = 476998082679942.06
+    yield {"op": "write", "tg": {"lo": 0.0, "hi": big, "tiers": [{"k": "I", "name": "phones", "es": [[724.99999999275, big, ""]], "lo": 0.0, "hi": big}]},
+           "blanks": True, "stream": "plain", "max": 476998082679942.2, "min": 0.0}
+    # seeded-change regressions: quote at the end of a non-final line of a point mark; a time a few ulps below an integer
+    q = {"lo": 0.0, "hi": 5.0, "tiers": [{"k": "P", "name": "p", "es": [[1.0, 'say "ah"\nrising'], [2.0, '"\n"']], "lo": 0.0, "hi": 5.0},
+                                       {"k": "I", "name": "i", "es": [[1.0, 2.9999999999999996, 'a"\nb']], "lo": 0.0, "hi": 5.0}]}
+    yield {"op": "write", "tg": q, "blanks": True, "stream": "plain"}
 
 
 def gen(rnd, tier):
